@@ -158,7 +158,8 @@ def mutex_storage(ctx, cg, f, mx, depth=0):
                         if "local:" + v["name"] == m["decl"]:
                             if v.get("static"):
                                 return "ok", "function-local static %s" % v["name"]
-                            if v.get("ref") and v.get("init") is not None:
+                            if (v.get("ref") or (v.get("type") or "").rstrip().endswith("&")) and v.get("init") is not None:
+                                # (also the reference parameter of a helper that was spliced into this function: bound to the caller's argument)
                                 return mutex_storage(ctx, cg, f, v["init"], depth + 1)
                             return "bad", "the mutex %s has automatic storage: every call locks its own mutex" % v["name"]
             return "bad", "the mutex %s is a parameter/local with automatic storage" % m["decl"]
